@@ -20,6 +20,10 @@ def scenarios(rng: random.Random, n: int, thorough: bool):
             p["look_deg"] = rng.choice([90.0, 89.0, 75.0])
             p["mv_fps"] = rng.choice([200.0, 800.0])
             lim = {"cMaximumDrop": rng.choice([-50.0, -500.0])}
+            if i % 2 == 0:
+                # the velocity limit switched off with a NEGATIVE value: no speed is below it, the shot passes its apex (speed near 0)
+                # and ends on the drop limit
+                lim["cMinimumVelocity"] = rng.choice([-10.0, -1.0])
         elif mode == "downward":
             p["look_deg"] = rng.choice([-80.0, -45.0])
             p["alt_ft"] = 3000.0
@@ -175,6 +179,8 @@ def run(chk: core.Check, replay=None) -> None:
         outs.append(a)
         chk.count(1, ("shot", tid) if len(a["rows"]) >= 3 else None)
         chk.stratum("mode_" + sc["mode"])
+        if (sc.get("cfg") or {}).get("cMinimumVelocity", 0) < 0:
+            chk.stratum("negative_velocity_limit")
         pairs.append({"tid": tid, "ev": "Pair", "clause": "C04.Terminates", "ok": a["outcome"] != "timeout"})
         if a["outcome"] not in ("ok", "RangeError", "timeout"):
             pairs.append({"tid": tid, "ev": "Pair", "clause": "C04.UnexpectedException", "ok": False})
@@ -214,7 +220,7 @@ def run(chk: core.Check, replay=None) -> None:
     o = next((x for x in outs if x["outcome"] == "RangeError"), outs[0])
     chk.sample({"scenario": o["sc"], "outcome": o["outcome"], "reason": o.get("reason"), "tail_lines": o["lines"][-3:]})
     chk.require_strata(["limit_Vel", "limit_Drop", "limit_Alt", "completed", "paired_with_relaxed_limit", "mode_vertical",
-                        "mode_zero_velocity", "mode_beyond_reach", "mode_start_below_floor", "mode_vacuum_lob", "limits_after_failed_requests", "several_limits_in_one_step"])
+                        "mode_zero_velocity", "mode_beyond_reach", "mode_start_below_floor", "mode_vacuum_lob", "negative_velocity_limit", "limits_after_failed_requests", "several_limits_in_one_step"])
     chk.exhaustive = False
     chk.rule.append("design: Integrator.tla C04_* with every subset of violated limits per step and liveness under the gravity assumption; "
                     "code->spec: seeded real shots (vertical, downward, slow, zero-velocity, high station, beyond reach, each limit, "
